@@ -25,9 +25,13 @@ def grow_stage(run, thorough):
     inp = os.path.join(OUT, "traces", "C04-grow-in.ndjson")
     outp = os.path.join(OUT, "traces", "C04-grow-out.ndjson")
     write_ndjson(inp, calls)
-    vh(["mx-grow", "--in", inp, "--out", outp])
-    res = read_ndjson(outp)
-    if len(res) != len(calls):
+    res, died = vh_records(["mx-grow", "--in", inp], outp)
+    if died:
+        i = died["during"].get("i", len(res))
+        c = calls[min(i, len(calls) - 1)]["call"]
+        run.violation({"kind": "crash", "exec": "mx-grow", "rc": died["rc"], "old": c["old"], "req": c["req"], "exact": c["exact"], "directed": c["directed"]}, [calls[min(i, len(calls) - 1)]], header={"exec": "mx-grow"})
+        calls = calls[:len(res)]
+    elif len(res) != len(calls):
         raise ToolError("mx-grow answered %d of %d calls" % (len(res), len(calls)))
     bad = [x for x in res if not x["ok"]]
     run.traces += len(res) - len(bad)
@@ -37,10 +41,9 @@ def grow_stage(run, thorough):
         c = x["call"]
         run.violation({"kind": "matrix_grow", "old": c["old"], "req": c["req"], "exact": c["exact"], "directed": c["directed"], "panic": bool(x.get("panic"))},
                       [dict(calls[x["i"]], got=x.get("arr"), got_new=x.get("new"))], header={"exec": "mx-grow"})
-    os.remove(inp)
-    os.remove(outp)
-    if os.path.exists(outp + ".cur"):
-        os.remove(outp + ".cur")
+    for f in (inp, outp, outp + ".cur"):
+        if os.path.exists(f):
+            os.remove(f)
 
 
 def ids_stage(run, thorough):
@@ -67,9 +70,12 @@ def ids_stage(run, thorough):
     inp = os.path.join(OUT, "traces", "C04-ids-in.ndjson")
     outp = os.path.join(OUT, "traces", "C04-ids-out.ndjson")
     write_ndjson(inp, scripts)
-    vh(["mxi-replay", "--in", inp, "--out", outp])
-    res = read_ndjson(outp)
-    if len(res) != len(scripts):
+    res, died = vh_records(["mxi-replay", "--in", inp], outp)
+    if died:
+        i = died["during"].get("i", len(res))
+        run.violation({"kind": "crash", "exec": "mxi-replay", "rc": died["rc"], "calls": len(scripts[i]["hist"]) if i < len(scripts) else -1}, [scripts[min(i, len(scripts) - 1)]], header={"exec": "mxi-replay"})
+        scripts = scripts[:len(res)]
+    elif len(res) != len(scripts):
         raise ToolError("mxi-replay answered %d of %d" % (len(res), len(scripts)))
     bad = [x for x in res if not x["ok"]]
     run.traces += len(res) - len(bad)
